@@ -532,8 +532,8 @@ impl Spec {
                     }
                 }
                 CompleteAction::Export => {
-                    for (key, value) in shell.env().iter() {
-                        if value.is_exported() && key.starts_with(token) {
+                    for (key, _) in shell.env().iter_exported() {
+                        if key.starts_with(token) {
                             candidates.push(key.to_owned());
                         }
                     }
@@ -641,7 +641,7 @@ impl Spec {
                     }
                 }
                 CompleteAction::Variable => {
-                    for (key, _) in shell.env().iter() {
+                    for (key, _) in shell.env().iter_set() {
                         if key.starts_with(token) {
                             candidates.push(key.to_owned());
                         }
